@@ -84,6 +84,23 @@ def extra_files():
                     b'#...diff: encoding=%s, length=%d\n%s'
                     % (codec.encode(), len(b1), b1, codec.encode(), len(b1),
                        b1, len(js), js, codec.encode(), len(b1), b1)))
+    # DECLARED line endings with lines that end in the other kind inside
+    # (git writes its own ---/+++/@@ lines with LF into a CRLF diff): in a
+    # dos section an LF-terminated line is not a line boundary
+    dm = b'--- a\n+++ b\n@@ -1 +1 @@\n-x\r\n+y\r\n'
+    um = b'one\r\ntwo\r\nthree\n'
+    pm = b'  first\n  second\r\n'
+    js = b'{"path": "f"}\n'
+    out.append(('declared-mixed',
+                b'#diffx: encoding=utf-8, version=1.0\n'
+                b'#.preamble: indent=2, length=%d, line_endings=dos\n%s'
+                b'#.change:\n#..file:\n#...meta: format=json, length=%d\n%s'
+                b'#...diff: length=%d, line_endings=dos\n%s'
+                b'#..file:\n#...meta: format=json, length=%d\n%s'
+                b'#...diff: length=%d, line_endings=unix\n%s'
+                b'#..file:\n#...meta: format=json, length=%d\n%s'
+                % (len(pm), pm, len(js), js, len(dm), dm, len(js), js,
+                   len(um), um, len(js), js)))
     out.append(('foreign-minimal',
                 b'#diffx: version=1.0\n'
                 b'#.preamble: length=%d\n%s'
